@@ -658,6 +658,16 @@ class Evaluator:
                 sub.heap_mode = getattr(self, "heap_mode", False)
                 sub.objects = getattr(self, "objects", False)
                 sub.dyn_type = getattr(self, "dyn_type", None)
+                for q, v in zip(g.params, args):
+                    # a string value bound to a (const) SimpleString parameter: the parameter object's buffer is that text
+                    # (for callees that read the object through buffer_/bufferSize_ rather than through string hooks)
+                    if isinstance(v, tuple) and v and v[0] in ("str", "ptr") and q["ct"].replace("const ", "").replace("&", "").strip() == "SimpleString":
+                        try:
+                            pv_ = sub.as_ptr(v)
+                            sub.env[q["name"] + ".bufferSize_"] = len(sub.cstring(pv_)) + 1
+                            sub.env[q["name"] + ".buffer_"] = pv_
+                        except Unknown:
+                            pass
                 sub.on_subscript = getattr(self, "on_subscript", None)
                 sub.trace.append(("enter " + str(nm), None, n))
                 sub.run_blocks(g.entry, max_steps=5000)
